@@ -1,6 +1,6 @@
 (* C07 -- matrices and vectors survive a save/load round trip in every format.
    Statements only; proofs are in Maths/*Proofs.v. *)
-From OM Require Import Base.Lists Maths.BinCodec Maths.BinCodecProofs Maths.AsciiCodec Maths.IOFront Maths.IOFrontProofs.
+From OM Require Import Base.Lists Maths.BinCodec Maths.BinCodecProofs Maths.AsciiCodec Maths.IOFront Maths.IOFrontProofs Maths.AsciiCodecProofs.
 Local Open Scope Z_scope.
 
 (* binary: an object whose shape the size test can identify decodes to itself, bit for bit *)
@@ -53,3 +53,80 @@ Print Assumptions small_file_roundtrip.
 
 Example small_file_ex : (length (encode (OVec [1; 2; 3]%Z)) < 32)%nat /\ wf (OVec [1; 2; 3]%Z).
 Proof. split; [vm_compute; lia|]. unfold wf, word. rewrite W32_val, W64_val. split; [cbn; lia|]. repeat constructor; lia. Qed.
+
+(* ---- text format (token level; libc formatting/lexing assumed: a printed double reads back as rnd6 of it) ---- *)
+Section TextFormat.
+  Variable rnd6 : Z -> Z.
+  Variable dofz : Z -> Z.
+  Hypothesis rnd6_idem : forall w, rnd6 (rnd6 w) = rnd6 w.
+  Hypothesis rnd6_word : forall w, word w -> word (rnd6 w).
+
+  Theorem txt_roundtrip : forall o, wf_txt o -> ~ txt_rejected_shape o -> ~ txt_empty_full o ->
+    txt_decode (kind_of o) (view rnd6 dofz (txt_encode o)) = Ok (round_obj rnd6 o).
+  Proof. exact (AsciiCodecProofs.txt_roundtrip rnd6 dofz). Qed.
+
+  (* exactly: vectors / symmetric matrices of at most one row, one-column matrices of >= 2 rows, sparse without entry *)
+  Theorem txt_ambiguous_rejected : forall o, wf_txt o -> txt_rejected_shape o ->
+    exists e, txt_decode (kind_of o) (view rnd6 dofz (txt_encode o)) = Err e.
+  Proof. exact (AsciiCodecProofs.txt_ambiguous_rejected rnd6 dofz). Qed.
+
+  Theorem txt_never_misreads : forall o o', wf_txt o ->
+    (match o with OFull nl nc _ => (nl = 0 \/ nc = 0) -> (nl = 0 /\ nc = 0) | _ => True end) ->
+    txt_decode (kind_of o) (view rnd6 dofz (txt_encode o)) = Ok o' -> o' = round_obj rnd6 o.
+  Proof. exact (AsciiCodecProofs.txt_never_misreads rnd6 dofz). Qed.
+
+  (* the text READER alone turns the (empty) file of a 0x1 matrix into the 0x0 matrix ... *)
+  Theorem txt_never_misreads_codec_refuted :
+    exists o o', wf_txt o /\ txt_decode (kind_of o) (view rnd6 dofz (txt_encode o)) = Ok o' /\ o' <> round_obj rnd6 o.
+  Proof. exact (AsciiCodecProofs.txt_never_misreads_codec_refuted rnd6 dofz). Qed.
+
+  (* ... but load() never offers an empty file to the text reader: it fails for every kind and detection order *)
+  Theorem txt_empty_file_rejected : forall order k ls,
+    exists e, load order 1 k {| f_bytes := []; f_lines := ls; f_ascii := false |} = Err e.
+  Proof. exact IOFrontProofs.txt_empty_file_rejected. Qed.
+
+  Theorem txt_load_is_codec : forall k fl,
+    f_ascii fl = true -> starts_with MAGIC_MAT (fst (read_tag (f_bytes fl))) = false ->
+    load [FMat; FTxt; FTex; FBin] 1 k fl = txt_decode k (f_lines fl).
+  Proof. exact IOFrontProofs.txt_load_is_codec. Qed.
+
+  Theorem convert_preserves : forall o, wf o -> wf_txt o -> ~ ambiguous o -> ~ txt_rejected_shape o -> ~ txt_empty_full o ->
+    (forall o1, decode_as (kind_of o) (encode o) = Ok o1 ->
+       txt_decode (kind_of o1) (view rnd6 dofz (txt_encode o1)) = Ok (round_obj rnd6 o)) /\
+    (forall o1, txt_decode (kind_of o) (view rnd6 dofz (txt_encode o)) = Ok o1 ->
+       decode_as (kind_of o1) (encode o1) = Ok (round_obj rnd6 o) /\
+       txt_decode (kind_of o1) (view rnd6 dofz (txt_encode o1)) = Ok (round_obj rnd6 o)).
+  Proof. exact (IOFrontProofs.convert_preserves rnd6 dofz rnd6_idem rnd6_word). Qed.
+End TextFormat.
+Print Assumptions txt_roundtrip.
+Print Assumptions txt_ambiguous_rejected.
+Print Assumptions txt_never_misreads.
+Print Assumptions txt_never_misreads_codec_refuted.
+Print Assumptions txt_empty_file_rejected.
+Print Assumptions txt_load_is_codec.
+Print Assumptions convert_preserves.
+
+Example txt_hyp_ex : wf_txt (OFull 2 3 [1;2;3;4;5;6]%Z) /\ ~ txt_rejected_shape (OFull 2 3 [1;2;3;4;5;6]%Z) /\ ~ txt_empty_full (OFull 2 3 [1;2;3;4;5;6]%Z).
+Proof. cbn. repeat split; try lia; intros H; lia. Qed.
+
+(* ---- tex (BrainVisa texture; token level, repaired reader) ---- *)
+From OM Require Import Maths.TexCodec Maths.TexCodecProofs Maths.CscCodec Maths.CscCodecProofs.
+Theorem tex_roundtrip : forall (rnd6 dofz : Z -> Z) (vint : Z -> option Z) nl nc vs,
+  1 <= nl -> 1 <= nc -> nl * nc < ALLOC_MAX -> length vs = (Z.to_nat nl * Z.to_nat nc)%nat ->
+  tex_decode (xview rnd6 dofz vint (tex_encode nl nc vs)) = Ok (OFull nl nc (map rnd6 vs)).
+Proof. exact TexCodecProofs.tex_roundtrip. Qed.
+Print Assumptions tex_roundtrip.
+
+Theorem tex_no_column_rejected : forall (rnd6 dofz : Z -> Z) (vint : Z -> option Z) nl vs,
+  tex_decode (xview rnd6 dofz vint (tex_encode nl 0 vs)) = Err EHeader.
+Proof. exact TexCodecProofs.tex_no_column_rejected. Qed.
+Print Assumptions tex_no_column_rejected.
+
+(* ---- MATLAB sparse CSC conversion: FINITE statement only (every sparsity pattern of every shape listed, values
+   +0.0 / -0.0 / distinct words): read_csc (write_csc m) returns m with its dimensions, entry count and stored zeros.
+   The statement for every sorted bounded map is not proved. *)
+Theorem csc_roundtrip_small :
+  forallb (fun s => csc_sweep (fst s) (snd s) sweep_val)
+    [(0,0);(0,3);(3,0);(1,1);(1,4);(4,1);(2,2);(2,3);(3,2);(3,3);(3,4);(4,3)]%nat = true.
+Proof. exact CscCodecProofs.csc_sweep_all. Qed.
+Print Assumptions csc_roundtrip_small.
